@@ -1,6 +1,6 @@
 (* Wire glue for C12 (ops 12xx): universal value -> shell spec / placeholder model functions.
    Evaluated both by vm_compute (cases.v) and by the extracted OCaml driver. *)
-From Fzf Require Import Prelude Val ShellSpec PlaceholderModel.
+From Fzf Require Import Prelude Val ShellSpec PlusSpec PlaceholderModel PlusListModel.
 Open Scope Z_scope.
 
 Definition vopt_words (o : option (list str)) : val :=
@@ -31,6 +31,9 @@ Definition v_piece (p : piece) : val :=
   | PPh m => VL [VI 2; vstr m]
   end.
 
+Definition v_item (it : item) : val := VL [VI (fst it); vstr (snd it)].
+Definition as_optitem (v : val) : option item := match as_list v with [] => None | x :: _ => Some (as_item x) end.
+
 Definition dispatch_placeholder (op : Z) (a : val) : option val :=
   (* 1201: model replacePlaceholder: [params, template, temps] -> [command, [file contents]] *)
   if op =? 1201 then
@@ -58,4 +61,28 @@ Definition dispatch_placeholder (op : Z) (a : val) : option val :=
   else if op =? 1208 then Some (vstr (export_line (as_str (arg a 0)) (as_str (arg a 1))))
   (* 1209: model scanner: template -> pieces *)
   else if op =? 1209 then Some (VL (map v_piece (scan (as_str a) O [])))
+  (* 1210: model buildPlusList ; Terminal.replacePlaceholder: [params, cur (0 or 1 item), selected, template, temps]
+           -> [valid, command, [file contents]]  (the items inside params are ignored) *)
+  else if op =? 1210 then
+    Some (match terminal_expand (as_params (arg a 0)) (as_optitem (arg a 1)) (map as_item (as_list (arg a 2)))
+                                (as_str (arg a 3)) (as_strs (arg a 4)) with
+          | Ok (valid, (out, files)) => VL [vbool valid; vstr out; vstrs files]
+          | Err _ => verr
+          end)
+  (* 1211: model buildPlusList: [template, forcePlus, cur, selected] -> [valid, [current...], [selected...]] *)
+  else if op =? 1211 then
+    Some (let '(valid, (c, s)) := build_plus_list (as_str (arg a 0)) (as_bool (arg a 1)) (as_optitem (arg a 2))
+                                                  (map as_item (as_list (arg a 3))) in
+          VL [vbool valid; VL (map v_item c); VL (map v_item s)])
+  (* 1212: the files ONE placeholder writes when expanded on its own: [params, placeholder] -> [content...] *)
+  else if op =? 1212 then
+    Some (match own_files (as_params (arg a 0)) (PPh (as_str (arg a 1))) with
+          | Ok fs => vstrs fs
+          | Err _ => verr
+          end)
+  (* 1213: spec plus_items: [cur, selected] -> [item...] *)
+  else if op =? 1213 then
+    Some (VL (map v_item (plus_items (as_optitem (arg a 0)) (map as_item (as_list (arg a 1))))))
+  (* 1214: spec file_text: [separator, [value...]] -> text *)
+  else if op =? 1214 then Some (vstr (file_text (as_str (arg a 0)) (as_strs (arg a 1))))
   else None.
